@@ -57,7 +57,12 @@ def render(doc):
             res.append(pad + 'transitions:')
             for t in tr:
                 items = ['event: e%d' % t['ev']] if t['ev'] else ['action: pass']
-                if t['tgt']:
+                if t['tgt'] == -1:
+                    items.append("target: ''")
+                elif t['tgt'] <= -100:
+                    pads = [(' ', ' '), ('', ' '), ('\\t', '')][(-t['tgt']) % 3]
+                    items.append('target: ' + q(pads[0] + 'n%d' % (-100 - t['tgt']) + pads[1]))
+                elif t['tgt']:
                     items.append('target: ' + q('n%d' % t['tgt']))
                 if t['prio']:
                     items.append('priority: ' + {HI: 'high', LO: 'low', BOGUS: 'sometimes'}.get(t['prio'], str(t['prio'])))
@@ -106,11 +111,14 @@ def import_line(doc, ident):
     text = render(doc)
     outcome, struct, prios = 'ok', model_edit.struct_of(model_edit.Statechart('x'), M), []
     try:
-        sc = import_from_yaml(text)
-        struct = model_edit.struct_of(sc, M)
-        prios = [t.priority for t in sc.transitions]
+        with model_edit.driver.watchdog():
+            sc = import_from_yaml(text)
+            struct = model_edit.struct_of(sc, M)
+            prios = [t.priority for t in sc.transitions]
     except StatechartError:
         outcome = 'StatechartError'
+    except model_edit.driver.Hang:
+        outcome = 'Hang'
     except Exception as e:
         outcome = type(e).__name__
     d = dict(doc)
@@ -281,7 +289,7 @@ def main_c12(tier, seed, rng, quick, t0, replay_path):
                samples=[{'faults': faults[i], 'yaml': texts[i], 'outcome': lines[i]['outcome']} for i in (0, len(lines) // 2, len(lines) - 1)],
                exhaustive=bool(mc['completed']), documents=len(lines), accepted=acc, rejected=len(lines) - acc,
                divergences=divs, start_charts=len(charts), max_faults=2 if quick else 3, mc_cmd=mc['cmd'], trace_cmd=tr['cmd'],
-               rule='YamlMC.tla: every combination of up to max_faults faults of 20 kinds at every position of the export '
+               rule='YamlMC.tla: every combination of up to max_faults faults of 21 kinds at every position of the export '
                     'of each valid start chart; TLC checks Accepts <=> DocSound in the model; every distinct document is '
                     'rendered to YAML, imported by the real import_from_yaml, and TLC (YamlTrace.tla) decides the outcome')
     evd.write_evidence('C12', tier, seed, cov, time.time() - t0, nviol, level='model_checking',
